@@ -3,6 +3,7 @@
   Helper lemmas: Lemmas/Agree.lean.
 -/
 import OptreeModel.Lemmas.Agree
+import OptreeModel.Lemmas.Iter
 import OptreeModel.Lemmas.Leaves
 import OptreeModel.Properties.C01
 
@@ -211,5 +212,28 @@ theorem C03_error_parity_partial (cfg : Cfg) (t : PyObj) (hwf : t.wf = true) (e 
 /-! ### non-vacuity -/
 
 example : C01_demoTree.wf = true := by decide
+
+end Optree
+
+namespace Optree
+
+/-- **The lazy iterator yields the leaves of flatten, in the same order.**  For every tree and
+configuration on which `flatten` succeeds (any predicate, any registry, malformed flatten functions
+excluded by the success itself), `list(tree_iter(t))` succeeds and is the leaves list of
+`tree_flatten(t)` — the agenda machine of `PyTreeIter::NextImpl` against the recursion of
+`FlattenIntoImpl`, by mutual structural induction with the agenda generalised. -/
+theorem C03_iter_leaves (cfg : Cfg) (t : PyObj) (ls : List PyObj) (sp : Spec)
+    (h : flatten cfg t = .ok (ls, sp)) : iterAll cfg t = .ok ls := by
+  unfold flatten at h
+  simp only at h
+  cases hg : flattenGo cfg (!cfg.insertionOrdered) 0 t with
+  | error e => rw [hg] at h; simp at h
+  | ok out =>
+    rw [hg] at h
+    simp only [Except.ok.injEq, Prod.mk.injEq] at h
+    obtain ⟨f, _, e⟩ := iobj cfg (!cfg.insertionOrdered) t 0 out hg (t.size + 1) [] [] (by omega)
+    unfold iterAll
+    rw [e]
+    cases f <;> simp [iterRun, h.1]
 
 end Optree
